@@ -79,7 +79,8 @@ def judge(text, mode, obs):
     if 'err' in obs:
         return 'over-reject', C.Fail(PROP, 'parse/%s · ref=ok · obs=err(%s)' % (mode, K.err_kind(obs)), 'parse', inp,
                                      {'err': K.err_kind(obs), 'off': obs.get('off')}, 'accepted by CPython')
-    got = drop_empty_type_params(observed_tree(obs, mode))
+    got = A.mask_spec_kinds(drop_empty_type_params(observed_tree(obs, mode)))
+    ref = A.mask_spec_kinds(ref)
     if got == ref:
         return 'equal', None
     diff = A.firstdiff(got, ref)
